@@ -24,7 +24,7 @@ MB = [None, 0.5, 1, 3]            # memory_cache_mb catalogue (0.5 MB < big resu
 RO = [None, False, True]
 RUNNER = [None, "local", "null"]
 STYPE = ["filesystem", "memory", "null"]
-SOURCES = ["cluster-config-dict", "environment-config-dict", "json-files", "yaml-jinja-file"]
+SOURCES = ["cluster-config-dict", "environment-config-dict", "json-files", "yaml-jinja-file", "json-files-with-template-defaults"]
 
 SRC = (
     "@m.memento_function(cluster='{c}', version='1')\n"
@@ -193,6 +193,20 @@ def _env_from_source(src, root, ccfg_fn):
         return Environment(name="e", base_dir=root, repos=[ConfigurationRepository(name="r", clusters={"c1": cl})])
     if name == "environment-config-dict":
         return Environment({"name": "e", "base_dir": root, "repos": [{"name": "r", "clusters": {"c1": ccfg_fn(False)}}]})
+    if name == "json-files-with-template-defaults":
+        # files that are jinja templates relying on DEFAULTS ({{ root | default(...) }}), loaded without any parameter through the
+        # environment -> repository -> cluster chain
+        os.makedirs(os.path.join(cfgdir, "sub"), exist_ok=True)
+        text = json.dumps(ccfg_fn(True)).replace("{{root}}", "{{ root | default(%s) }}" % json.dumps(root)[1:-1].join(["'", "'"]))
+        with open(os.path.join(cfgdir, "sub", "c1.json"), "w") as fh:
+            fh.write(text)
+        with open(os.path.join(cfgdir, "repo.json"), "w") as fh:
+            json.dump({"name": "r", "clusters": {"c1": "sub/c1.json"}}, fh)
+        with open(os.path.join(cfgdir, "env.json"), "w") as fh:
+            json.dump({"name": "e", "repos": ["repo.json"]}, fh)
+        env = Environment.from_file(os.path.join(cfgdir, "env.json"))
+        env.base_dir = root
+        return env
     if name == "json-files":
         # environment file -> repository file (relative path) -> cluster file (relative path)
         os.makedirs(os.path.join(cfgdir, "sub"), exist_ok=True)
@@ -254,10 +268,10 @@ def _expect(fp, stype, meta, mbi, roi, ri, label):
 @obligation(
     "C18.options",
     covers=("filesystem", "memory", "null-storage", "metadata_path", "cache", "readonly", "null-runner"),
-    split={"src": [0, 1, 2, 3], "ri": [0, 1, 2]},
+    split={"src": [0, 1, 2, 3, 4], "ri": [0, 1, 2]},
     bounds="full matrix: storage type {filesystem, memory, null} x metadata_path {absent, given} x memory_cache_mb {absent, 0.5, 1, 3} x "
            "readonly {absent, false, true} x runner {absent, local, null} x source {FunctionCluster(config dict), Environment(config dict), "
-           "env.json -> repo.json -> cluster json by relative paths, YAML repository file with a jinja parameter}; effect observed "
+           "env.json -> repo.json -> cluster json by relative paths, YAML repository file with a jinja parameter, JSON files that are templates relying on jinja defaults and loaded without parameters}; effect observed "
            "behaviourally (files on tmpfs, disk reads on repeated calls of a small and a 700 kB result, forget) and compared with the "
            "same options given as constructor arguments and with an independent expectation",
     variables="choice: stype, meta, mbi, roi (src, ri partitioned)",
@@ -406,7 +420,12 @@ def override(which: int, meta: bool, mbi: int, roi: int):
                 fp_b["files"] = sorted("/".join([ren_b.get(p.split("/")[0], "UNEXPECTED:" + p.split("/")[0])] + p.split("/")[1:])
                                        for p in fp_b["files"])
                 _expect(fp_b, 0, meta, mbi, roi, 0, "second-backend-from-the-same-config-object:")
+            # the dump of an environment built from configuration PLUS overriding arguments describes the effective settings
+            env_r = Environment(json.loads(json.dumps(env.to_dict())))
+            fp_r = fingerprint(env_r, "c1", root, "o")
             fp = fingerprint(env, "c1", root, "o")
+            check("dump-of-an-overridden-backend-rebuilds-the-same-behaviour", fp_r == fp,
+                  lambda: {k: (fp_r.get(k), fp.get(k)) for k in set(fp) | set(fp_r) if fp_r.get(k) != fp.get(k)})
             # rename the directories so that the shared expectation applies
             ren = {exp["data"]: "data-c1"}
             if exp["meta"] and exp["meta_dir"]:
